@@ -149,7 +149,7 @@ func hexAll(ss []string) []string {
 func c10GenFiles(r *rand.Rand) map[string]string {
 	n := 2 + r.IntN(5)
 	files := map[string]string{}
-	for len(files) < n {
+	for tries := 0; len(files) < n && tries < 400; tries++ {
 		depth := r.IntN(3)
 		parts := []string{}
 		for d := 0; d <= depth; d++ {
